@@ -22,6 +22,7 @@ import OG.C06.Model
 import OG.C06.Split
 
 namespace OG.C06
+open OG.Gen.C06
 
 /-! ### catalogue schema and stored points -/
 
@@ -83,8 +84,8 @@ def fixFields (fs : List (Bytes × FVal)) : Option (List (Bytes × FVal)) := fix
 
 /-! ### measurement names: `meta.ValidMeasurementName` -/
 
-/-- bytes of `unsupportedCharsInMstName` = `,;/\`. -/
-def unsupportedMstBytes : Bytes := [44, 59, 47, 92]
+/-- bytes of `unsupportedCharsInMstName` (regenerated) = `,;/\`. -/
+def unsupportedMstBytes : Bytes := unsupportedMstChars
 
 /-- `ValidMeasurementName` for names of ASCII bytes (`unicode.IsPrint` = 0x20 … 0x7e there).
 `none`: the name holds a byte ≥ 0x80 — outside this model (Unicode tables). -/
@@ -130,8 +131,9 @@ def addKeys (schema : Schema) : Schema → Schema
 
 /-! ### one row through `routeAndMapOriginRows` -/
 
-def minNanoTime : Int := -9223372036854775806
-def maxNanoTime : Int := 9223372036854775806
+/-- `models.MinNanoTime` / `models.MaxNanoTime` (regenerated). -/
+def minNanoTime : Int := minNanoTimeGen
+def maxNanoTime : Int := maxNanoTimeGen
 
 def findMst (db : Db) (n : Bytes) : Option Mst := db.find? (·.name = n)
 
@@ -231,10 +233,14 @@ def bucket2dbrp (bucket : Bytes) : Option (Bytes × Bytes) :=
   | none => if bucket.isEmpty then none else some (bucket, [])
   | some i => if i = 0 then none else some (bucket.take i, bucket.drop (i + 1))
 
-def pDb : Bytes := [100, 98]                          -- "db"
-def pRp : Bytes := [114, 112]                         -- "rp"
-def pBucket : Bytes := [98, 117, 99, 107, 101, 116]   -- "bucket"
-def pPrecision : Bytes := [112, 114, 101, 99, 105, 115, 105, 111, 110]   -- "precision"
+/-- the query parameters in the order the code reads them (regenerated `writeParamNames`):
+`serveWriteV1` hands the first two to `serveWrite` as database and retention policy,
+`serveWriteV2` splits the third, `serveWrite` reads the fourth. -/
+def paramName (i : Nat) : Bytes := ((writeParamNames.getD i "").toUTF8).toList
+def pDb : Bytes := paramName 0          -- "db"
+def pRp : Bytes := paramName 1          -- "rp"
+def pBucket : Bytes := paramName 2      -- "bucket"
+def pPrecision : Bytes := paramName 3   -- "precision"
 
 /-- database, retention policy and multiplier of a write request; `.inl` = refused. -/
 def requestTarget (databases : List Bytes) (v2 : Bool) (ps : List (Bytes × Bytes)) : Status ⊕ (Bytes × Bytes × Int) :=
